@@ -15,7 +15,11 @@ Oracle (no model code involved, just the stated scaling law):
 For a failing model the check enumerates unit exponents in {-2..3} per non-SLD, non-angle parameter
 (all 6^k assignments for k <= 5 table rows, otherwise every assignment at most 2 rows away from the
 declaration) and reports the unique assignment - if there is exactly one - that restores the law at
-several parameter sets; each mislabelled parameter becomes its own finding key.
+several parameter sets; each mislabelled parameter becomes its own finding key
+({"model", "clause", "parameter-hint": <row>}).  If no assignment gives lambda^3 but exactly one gives
+lambda^k for another integer k, the model contains an implicit length (its `scale` is not dimensionless):
+hint "implicit-length".  Size outputs (R_eff, volumes) that fail are attributed to the same rows when the
+repaired assignment also repairs them, otherwise hint "none".
 """
 import functools
 import itertools
